@@ -435,7 +435,7 @@ func TestCheck(t *testing.T) {
 			t.Fatalf("flush: %v", err)
 		}
 	}()
-	n := int64(cfg.Pick(40, 500))
+	n := int64(cfg.Pick(120, 500))
 	rep.Cases(n, func(idx int64, rng *mon.Rand) {
 		runCase(rep, idx, rng)
 	})
